@@ -22,6 +22,7 @@ EXPLANATION = (
     "Theorems in Properties/C05.lean are about the reference model for all states/commands; conformance of the code "
     "to the model is established by enumeration up to the bound and sampling beyond it (partial, as DESIGN says)."
 )
+GENERATED_OBLIGATIONS = ["Server.dispatcherOneCommandAtATime (handlers of pipelined lines start in order, one at a time)"]
 ASSUMPTIONS = [
     "sequential use: one command at a time, the client waits for the final reply",
     "in-memory network stands in for sockets; MemoryPathIO backend here (cross-backend behaviour is C18)",
